@@ -19,6 +19,8 @@ package responsemanager
 //@        let g := rm.maxLinksPerRequest :: let r := response.maxLinks ::
 //@        let eff := ite(g == 0, r, ite(r != 0 && r < g, r, g)) ::
 //@        (eff == 0 <==> self.Budget == nil) && (eff != 0 ==> self.Budget.LinkBudget == eff)
+//@   -- C22: the traversal gets the manager's own panic callback
+//@   callsite TraversalBuilder.Start: assert self.PanicCallback == rm.panicCallback
 
 //@ -- ============================ C10 / C05: the message handlers of the response manager ============================
 //@ ghost prot map[peer.ID]set[ref]        -- connection-manager protections held: peer -> tags
